@@ -185,7 +185,7 @@ PROPS = {
     "C04": {
         "level": "proof",
         "lean_targets": ["LP.Props.C04"],
-        "harnesses": [{"name": "h_res", "quick": 2500, "thorough": 40000}],
+        "harnesses": [{"name": "h_res", "quick": 2500, "thorough": 12000}],
         "select": lambda t: t[1] == "res",
         "nontrivial": lambda t, r: True,
         "rule": "pairs of polynomials with the same main variable, degrees 1-4 (Sylvester order <= 7), dense and sparse (degree gaps, "
@@ -198,7 +198,7 @@ PROPS = {
     "C06": {
         "level": "proof",
         "lean_targets": ["LP.Props.C06"],
-        "harnesses": [{"name": "h_roots", "quick": 1500, "thorough": 30000}],
+        "harnesses": [{"name": "h_roots", "quick": 1500, "thorough": 6000}],
         "select": lambda t: t[1] == "roots",
         "nontrivial": lambda t, r: True,
         "rule": "non-constant integer polynomials of degree <= 9 built from irreducible blocks with known root structure (rational, dyadic, "
@@ -211,7 +211,7 @@ PROPS = {
     "C07": {
         "level": "proof",
         "lean_targets": ["LP.Props.C07", "LP.Props.C07Exact", "LP.Props.C07Inv"],
-        "harnesses": [{"name": "h_alg", "quick": 400, "thorough": 8000}],
+        "harnesses": [{"name": "h_alg", "quick": 400, "thorough": 2500}],
         "select": lambda t: t[1] == "alg",
         "nontrivial": lambda t, r: True,
         "rule": "pools of real algebraic numbers per case: all real roots (conjugates included) of quadratic / cubic blocks, dyadic "
@@ -267,7 +267,7 @@ PROPS = {
     "C11": {
         "level": "proof",
         "lean_targets": ["LP.Props.C11", "LP.Props.C11Roots", "LP.Props.C12Exact", "LP.Props.C11Fallback2"],
-        "harnesses": [{"name": "h_eval", "quick": 150, "thorough": 4000, "env": {"LPV_EVAL_MODE": "roots"}}],
+        "harnesses": [{"name": "h_eval", "quick": 150, "thorough": 1200, "env": {"LPV_EVAL_MODE": "roots"}}],
         "select": lambda t: t[1] == "ev" and t[2] == "roots",
         "nontrivial": lambda t, r: True,
         "rule": "polynomials with main variable y as products of 1-2 factors (y-L, y^2-L, L1*y-L2, (y-L)^2, L1*y^2+L2*y+L3, y^2+L^2+1, "
@@ -282,7 +282,7 @@ PROPS = {
         "level": "proof",
         "lean_targets": ["LP.Props.C12", "LP.Props.C12Exact", "LP.Props.C12Compl", "LP.Props.GenTables"],
         "gen_tables": True,
-        "harnesses": [{"name": "h_eval", "quick": 250, "thorough": 4000, "env": {"LPV_EVAL_MODE": "fs"}}],
+        "harnesses": [{"name": "h_eval", "quick": 250, "thorough": 1000, "env": {"LPV_EVAL_MODE": "fs"}}],
         "select": lambda t: t[1] == "ev" and t[2] in ("fs", "rfs"),
         "nontrivial": lambda t, r: True,
         "rule": "the C11 polynomial / assignment families with all six sign conditions, both polarities, and root constraints with root "
@@ -307,7 +307,7 @@ PROPS = {
     "C05": {
         "level": "proof",
         "lean_targets": ["LP.Props.C05"],
-        "harnesses": [{"name": "h_factor", "quick": 600, "thorough": 15000}],
+        "harnesses": [{"name": "h_factor", "quick": 600, "thorough": 6000}],
         "select": lambda t: t[1] == "fac",
         "nontrivial": lambda t, r: True,
         "rule": "Z[x]: products of 1-5 irreducible blocks (linear incl. non-monic, quadratic, cubic, quartic incl. x^4+1 and "
